@@ -122,7 +122,7 @@ int disasm_6502(
           snprintf(temp, sizeof(temp), " %s (offset=%d)", num, (int8_t)lo);
           break;
         case OP_ADDRESS8_RELATIVE:
-          snprintf(temp, sizeof(temp), " 0x%02x, 0x%02x (offset=%d)", lo, address + 2 + (int8_t)hi, (int8_t)hi);
+          snprintf(temp, sizeof(temp), " 0x%02x, 0x%02x (offset=%d)", lo, address + 3 + (int8_t)hi, (int8_t)hi);
           break;
       }
     }
